@@ -40,8 +40,15 @@ macro_rules! floatres {
                 if self.is_finite() && n > 0 {
                     let c0 = (self as f64 * n as f64).round() as i64;
                     for c in (c0 - 2)..=(c0 + 2) {
-                        if c >= 0 && c <= n as i64 && ((c as usize) as $f / n as $f).to_bits() == self.to_bits() {
-                            return Oc::Value(c);
+                        // the value count/len in the function's own float type; 2 ulps of slack so that an
+                        // algebraically equivalent formula (e.g. count * (1/len)) is not mistaken for a wrong count:
+                        // neighbouring counts are 1/len apart, far more than 2 ulps for every length used here
+                        if c >= 0 && c <= n as i64 {
+                            let q = (c as usize) as $f / n as $f;
+                            let d = (q.to_bits() as i64 - self.to_bits() as i64).abs();
+                            if d <= 2 {
+                                return Oc::Value(c);
+                            }
                         }
                     }
                 }
